@@ -56,6 +56,8 @@ def _mutate(evs):
 def check(seed, tier):
     rep = Report("C14", seed, tier)
     core.build_harness()
+    # mode M: the specification modules against hand-derived expectations on hand-written projects
+    core.mc(rep, "mc/MC_Walk.tla", "MC_Walk.cfg", workers=1)
     meta = core.gen("C14", seed, tier, shards=8)
     core.validate_traces(rep, TRACE_SPEC, meta["files"], parallel=int(os.environ.get("VERIF_PAR", 4 if tier == "quick" else 8)), timeout=3600)
     core.canary(rep, TRACE_SPEC, meta["files"][0], _mutate, n=60)
@@ -66,7 +68,7 @@ def check(seed, tier):
                 "function); non-trivial = at least one register parameter is reported and some function reports fewer than three; "
                 "distinct = distinct case hashes",
         "reported_register_parameters": meta["extra"].get("reported_register_parameters"),
-        "samples": [str(s)[:1500] for s in meta["samples"][:2]], "exhaustive": False, "trusted_base": TRUSTED,
+        "samples": [str(s)[:1500] for s in meta["samples"][:2]], "exhaustive": False, "mc_runs": rep.cov.get("mc_runs"), "trusted_base": TRUSTED,
     }, ["programs: 1-3 functions with 1-5 blocks, one or two calling conventions, internal calls (chains, recursion, with/without return site), "
         "extern calls with 0-3 declared register/stack parameters, a noreturn symbol, indirect calls and jumps",
         "the stack pointer is never assigned and occurs only in load/store addresses (checked by the spec: StackDiscipline)",
